@@ -10,12 +10,17 @@ import (
 )
 
 // fakeClient is the InfluxDB the task talks to: it records every query (with the wall-clock
-// instant it arrived) and answers with an empty response.
+// instants it arrived and was answered) and answers with an empty response. The answer to
+// query number stallAt (0-based) is held back for stall (a slow or briefly unreachable
+// InfluxDB) when stall > 0.
 type fakeClient struct {
-	mu   sync.Mutex
-	qs   []string
-	at   []time.Time
-	wake chan struct{} // signalled (non-blocking) on every query
+	mu      sync.Mutex
+	qs      []string
+	at      []time.Time
+	ret     []time.Time   // zero while the query is unanswered
+	wake    chan struct{} // signalled (non-blocking) on every query
+	stallAt int
+	stall   time.Duration
 }
 
 func (f *fakeClient) Ping(ctx context.Context) (time.Duration, string, error) { return 0, "", nil }
@@ -24,8 +29,10 @@ func (f *fakeClient) WriteV2(w influxdb.FluxWrite) error                      { 
 func (f *fakeClient) Query(q influxdb.Query) (*influxdb.Response, error) {
 	now := time.Now()
 	f.mu.Lock()
+	idx := len(f.qs)
 	f.qs = append(f.qs, q.Command)
 	f.at = append(f.at, now)
+	f.ret = append(f.ret, time.Time{})
 	w := f.wake
 	f.mu.Unlock()
 	if w != nil {
@@ -34,6 +41,12 @@ func (f *fakeClient) Query(q influxdb.Query) (*influxdb.Response, error) {
 		default:
 		}
 	}
+	if f.stall > 0 && idx == f.stallAt {
+		time.Sleep(f.stall)
+	}
+	f.mu.Lock()
+	f.ret[idx] = time.Now()
+	f.mu.Unlock()
 	return &influxdb.Response{}, nil
 }
 func (f *fakeClient) QueryFlux(q influxdb.FluxQuery) (flux.ResultIterator, error) { return nil, nil }
@@ -48,10 +61,10 @@ func (f *fakeClient) count() int {
 	return len(f.qs)
 }
 
-func (f *fakeClient) snapshot() ([]string, []time.Time) {
+func (f *fakeClient) snapshot() (qs []string, at, ret []time.Time) {
 	f.mu.Lock()
 	defer f.mu.Unlock()
-	return append([]string(nil), f.qs...), append([]time.Time(nil), f.at...)
+	return append([]string(nil), f.qs...), append([]time.Time(nil), f.at...), append([]time.Time(nil), f.ret...)
 }
 
 func (f fakeInflux) NewNamedClient(name string) (influxdb.Client, error) { return f.client, nil }
